@@ -997,6 +997,7 @@ type mutateRes struct {
 	FpSame          bool     `json:"fp_same"`
 	FpDiff          []string `json:"fp_diff"`
 	FpEqualsFresh   bool     `json:"fp_equals_fresh_file"` // state decides like a process started on the file now on disk
+	FpAfter         []string `json:"fp_after"`             // the decisions after the mutation, probe by probe
 	StrayFiles      []string `json:"stray_files"`
 }
 
@@ -1060,6 +1061,7 @@ func reloadMutate(inb []byte) (any, error) {
 		res.ReturnedRunning = reflect.DeepEqual(updated, running)
 		fp1 := fingerprint(st, updated, c.Probes, clk)
 		res.FpSame = reflect.DeepEqual(fp0, fp1)
+		res.FpAfter = fp1
 		if !res.FpSame {
 			res.FpDiff = diffLines(fp0, fp1)
 		}
